@@ -186,6 +186,7 @@ type world struct {
 	endp     *smtpendp.Endpoint
 	net      *simnet.Net
 	clients  []*client
+	shutDown bool // the server has been shut down in the middle of the run
 }
 
 var rcptPool = []string{"u1@a.example", "u2@a.example", "U3@A.EXAMPLE", "u4@b.example", "u5@b.example", "x@c.example", "ü6@a.example", "u7@xn--e1aybc.example"}
@@ -594,6 +595,10 @@ func (w *world) runClient(c *client) {
 	defer func() { c.done = true }()
 	conn, err := w.net.Dial(context.Background(), c.ip, listenAddr)
 	if err != nil {
+		if w.shutDown {
+			// the server was shut down before this client connected
+			return
+		}
 		simrt.Harnessf("dial: %v", err)
 	}
 	defer conn.Close()
@@ -954,7 +959,28 @@ func Run(s *simrt.Sim, a *harness.Args, r *harness.Result) {
 		}
 		return true
 	}
-	res := s.Run(time.Hour, allDone)
+	// in one run of six the server is shut down (Endpoint.Close) at a drawn
+	// scheduling step, in the middle of whatever the sessions are doing: go-smtp
+	// then closes every connection - and logs every session out - from the
+	// goroutine that called Close, not from the connection's own
+	shutAt := -1
+	if a.Prop != "C16" && s.T.Choose("scen", 6) == 0 {
+		shutAt = s.Steps() + s.T.Choose("scen", 260)
+	}
+	earlyShut := false
+	res := s.Run(time.Hour, func() bool {
+		if shutAt >= 0 && !earlyShut && s.Steps() >= shutAt {
+			earlyShut = true
+			s.Stat("fault_server_shutdown_mid_session")
+			s.Spawn("earlyshut", nil, func() {
+				s.Logf("server shutdown")
+				w.shutDown = true
+				l.Close()
+				w.endp.VerifCloseServer()
+			})
+		}
+		return allDone()
+	})
 	if !allDone() && len(s.Violations()) == 0 {
 		simrt.Harnessf("clients did not finish (%v); parked=%v", res, s.ParkedKeys())
 	}
